@@ -162,5 +162,47 @@ def rule_sign(repo, tier):
     return res
 
 
+OPTION_NAMES = {'ord', 'dim', 'pdim', 'radius', 'largest', 'sorted', 'k'}
+FWD_MODULES = [GEO, 'pypose.module.icp']
+
+
+def rule_fwd(repo, tier):
+    from .. import paths as _paths
+    res = RuleResult('C18.FWD', 'option forwarding: when a point-cloud function that takes a norm / dimension option (ord, dim, pdim, ...) calls '
+                     'another function of the package with an option of the same name, it passes its own value on - otherwise the two '
+                     'halves of one query are evaluated in different norms / over different columns', floor=1)
+    n = 0
+    for mod in FWD_MODULES:
+        for q, f in repo.module(mod).functions.items():
+            fp = set(f.params)
+            for c in _paths.calls_in(f.node):
+                cands, how = repo.resolve_call(f, c, by_name=False)
+                if len(cands) != 1 or cands[0].module.name not in FWD_MODULES or cands[0] is f:
+                    continue
+                g = cands[0]
+                shared = (fp & set(g.params) & OPTION_NAMES)
+                if not shared:
+                    continue
+                bound = {}
+                for i, a in enumerate(c.args):
+                    if i < len(g.pos_params):
+                        bound[g.pos_params[i]] = a
+                for k in c.keywords:
+                    if k.arg:
+                        bound[k.arg] = k.value
+                n += 1
+                missing = sorted(p for p in shared if p not in bound)
+                res.inst({'function': f.fq, 'callee': g.name, 'shared_options': sorted(shared), 'not_passed': missing}, (f.fq, norm_construct(c, f.node)))
+                for p in missing:
+                    res.add(Finding('C18.FWD', f, '%s has the option `%s` but calls %s, which has the same option, without passing it: %s falls back to '
+                                    'its default' % (f.name, p, g.name, g.name), node=c, construct='%s -> %s: %s' % (f.name, g.name, p)))
+    # expected-small rule: positive fixture
+    import ast as _ast
+    fx = _ast.parse('def a(points, k, ord=2):\n    return b(points, k)\n')
+    if not ({'ord'} & {x.arg for x in fx.body[0].args.args}):
+        raise AnalysisError('C18.FWD fixture broken')
+    return res
+
+
 def rules(repo, tier):
-    return [rule_idx(repo, tier), rule_sign(repo, tier)]
+    return [rule_idx(repo, tier), rule_sign(repo, tier), rule_fwd(repo, tier)]
